@@ -1,8 +1,11 @@
 """C02 — resources are scoped to the context tree: snapshot down, nothing up or sideways."""
+from ..core import Composite
 from ..kernel_prop import KernelProp
+from ..startup_prop import StartupProp
 
 
-class C02(KernelProp):
+class C02Kernel(KernelProp):
+    kinds = ("ctx",)
     id = "C02"
     tags = ("C02",)
     quick_cases = 800
@@ -33,6 +36,28 @@ class C02(KernelProp):
                 if later_child and other_lookup:
                     return True
         return False
+
+
+class C02Startup(StartupProp):
+    """Inside components: the component's own context, and a context created there, see exactly what the context
+    start_component() was called in holds at that moment (component contexts only hand things on)."""
+    id = "C02"
+    kinds = ("startup",)
+    tags = ("C02",)
+    gen_kwargs = {"max_nodes": 8, "max_depth": 3, "p_await": 0.3, "p_stuck": 0.0}
+
+    def nontrivial(self, case, impl):
+        return len(case["prog"]) >= 2 and any(e["l"][0] == "pub" for e in impl["trace"])
+
+
+class C02(Composite):
+    id = "C02"
+    quick_cases = C02Kernel.quick_cases
+    thorough_cases = C02Kernel.thorough_cases
+    parts = [(8, C02Kernel()), (1, C02Startup())]
+    rule = C02Kernel.rule + ("; one case in nine is a component tree start-up (as in C05) where every prepare()/start() "
+                             "compares what its own context and a newly created context see with the surrounding context")
+    assumptions = C02Kernel.assumptions
 
 
 PROP = C02()
